@@ -8,7 +8,10 @@
 package gsxrt
 
 import (
+	"bytes"
 	"encoding/json"
+	"log"
+	"strings"
 	"fmt"
 	"os"
 	"regexp"
@@ -193,6 +196,25 @@ func Count(bs ...bool) int {
 		}
 	}
 	return n
+}
+
+var logBuf bytes.Buffer
+
+// CaptureLog redirects the standard logger into a buffer (natively); under
+// GSX log calls are recorded as events.
+func CaptureLog() {
+	logBuf.Reset()
+	log.SetFlags(0)
+	log.SetOutput(&logBuf)
+}
+
+// LogLines returns the lines printed through the standard logger since CaptureLog.
+func LogLines() []string {
+	s := strings.TrimSuffix(logBuf.String(), "\n")
+	if s == "" {
+		return nil
+	}
+	return strings.Split(s, "\n")
 }
 
 // Symbolic reports whether the harness runs under the symbolic executor.
